@@ -569,10 +569,14 @@ def _run(chk, wd, proved):
             break
     # ---- one channel with strip_ansi
     ccases, cmeta = [], []
+    nchan_bad = 0
     for job, (tr, verdict) in zip(cjobs, cres):
         nruns += 1
         chk.dist('chan:strip')
         if tr is None or verdict == 'wrong':
+            nchan_bad += 1
+            if nchan_bad > 10:
+                continue
             chk.violation({'kind': 'the implementation violates C07 on one channel', 'why': verdict or tr,
                            'frags': [list(f) for f in job[0]], 'capture_maxbytes': job[1], 'strip_ansi': True})
             continue
